@@ -278,6 +278,53 @@ def alias_prone_trees(rnd):
     return out
 
 
+def reordered_slice_trees(rnd):
+    """Sliced operators whose selectors keep EVERY row and/or column of the parent but in another order (reversed slices,
+    permutation index arrays), and mixed full/subset selectors, over every parent kind"""
+    def V(dt):
+        return [rnd.randint(-3, 3), rnd.randint(-2, 2) if dt.startswith("complex") else 0]
+
+    def Dn(m, n, dt):
+        return dict(k="Dense", dt=dt, a=[[V(dt) for _ in range(n)] for _ in range(m)])
+
+    def parents(dt):
+        I3 = dict(k="Ident", dt=dt, n=3)
+        D3, D23, D32 = Dn(3, 3, dt), Dn(2, 3, dt), Dn(3, 2, dt)
+        return [D3, D23, D32,
+                dict(k="Diag", dt=dt, d=[V(dt) for _ in range(3)]), I3,
+                dict(k="Tri", dt=dt, a=[[V(dt) if j <= i else [0, 0] for j in range(3)] for i in range(3)], lower=True),
+                dict(k="Scal", dt=dt, c=[2, 0], n=3), dict(k="Perm", dt=dt, p=[2, 0, 1]),
+                dict(k="Tridiag", dt=dt, al=[V(dt), V(dt)], be=[V(dt), V(dt), V(dt)], ga=[V(dt), V(dt)]),
+                dict(k="House", dt=dt, v=[V(dt), V(dt), V(dt)], beta=[2, 0]),
+                dict(k="Sparse", dt=dt, m=3, n=3, ent=[[0, 1, V(dt)], [1, 0, V(dt)], [2, 2, V(dt)]]),
+                dict(k="Sum", ms=[Dn(3, 3, dt), I3]), dict(k="Prod", ms=[Dn(3, 2, dt), Dn(2, 3, dt)]), dict(k="Prod", ms=[I3, I3]),
+                dict(k="Kron", ms=[I3, dict(k="Ident", dt=dt, n=1)]), dict(k="Kron", ms=[Dn(1, 3, dt), Dn(3, 1, dt)]),
+                dict(k="BDiag", ms=[Dn(2, 2, dt), Dn(1, 1, dt)], mu=[1, 1]), dict(k="Transp", a=Dn(2, 3, dt)), dict(k="Adj", a=Dn(3, 3, dt)),
+                dict(k="KronSum", ms=[Dn(3, 3, dt), Dn(1, 1, dt)]), dict(k="Concat", axis=0, ms=[Dn(1, 3, dt), Dn(2, 3, dt)]),
+                dict(k="Sliced", a=Dn(3, 3, dt), rs=[0, 1, 2], cs=[2, 1, 0]), dict(k="Transp", a=dict(k="Transp", a=I3))]
+
+    def sels(m):
+        ident, rev = list(range(m)), list(range(m))[::-1]
+        out = [("id", ident), ("rev", rev)]
+        if m >= 3:
+            out.append(("perm", ident[1:] + ident[:1]))          # not an arithmetic progression: an index array
+            out.append(("perm2", [1, 0] + ident[2:]))
+        out.append(("sub", ident[:max(1, m - 1)]))
+        return out
+    trees = []
+    for dt in ("float64", "float32", "complex128"):
+        for par in parents(dt):
+            m, n = T.shape(par)
+            for rn, rs in sels(m):
+                for cn, cs in sels(n):
+                    if (rn, cn) == ("id", "id") or (rn == "sub" and cn == "sub"):
+                        continue
+                    if dt != "float64" and not ({rn, cn} & {"rev", "perm"}):
+                        continue
+                    trees.append(dict(k="Sliced", a=copy.deepcopy(par), rs=list(rs), cs=list(cs)))
+    return trees
+
+
 def entry_of(t):
     arrays = []
     A = build_rec(t, arrays)
